@@ -30,6 +30,11 @@ def selfty(ty):
     return {'where': 'sig', 'rule': 'R2', 'find': 'SELF__', 'replace': ty}
 
 
+def acc(name, ensures, extra=(), ret='r'):
+    return {'kind': 'fn', 'file': P, 'container': r'^impl Primitive$', 'name': name, 'props': RD, 'ensures': ensures,
+            'rewrites': list(extra)}
+
+
 UNUSED_R = sig('_: &R__', 'unused_r: &R__')
 UNUSED_U = sig('_: &mut U__', 'unused_u: &mut U__')
 SELF = lambda n=1: {'rule': 'R2', 'regex': r'\bself\b', 'replace': 'this', 'count': n}   # `&self` of the trait method is the free fn's `this`
@@ -42,6 +47,19 @@ UNIT = {
   'struct PlainRef': {'kind': 'decl', 'file': F, 'header': r'^pub struct PlainRef$', 'attrs': ['#[derive(Clone, Copy)]']},
   'struct Name': {'kind': 'decl', 'file': P, 'header': r'^pub struct Name\('},
   'struct Rectangle': {'kind': 'decl', 'file': T, 'header': r'^pub struct Rectangle$', 'attrs': ['#[derive(Clone, Copy)]']},
+  # ---- Primitive accessors (primitive.rs)
+  'Primitive::get_debug_name': acc('get_debug_name', [('spec', 'r == debug_name(*self)')]),
+  'Primitive::resolve': acc('resolve', [('spec', 'r == deref1(self, r_.store())')], ret='r',
+      extra=[sig('r: &impl Resolve', 'r_: &impl Resolve'), {'rule': 'R2', 'find': 'r.resolve(id)', 'replace': 'r_.resolve(id)'}]),
+  'Primitive::as_integer': acc('as_integer', [('spec', 'r == int_of(*self)')]),
+  'Primitive::as_u32': acc('as_u32', [('spec', 'r == then(nat_of(*self), |n: int| Ok::<u32, PdfError>(n as u32))')]),
+  'Primitive::as_usize': acc('as_usize', [('spec', 'r == then(nat_of(*self), |n: int| Ok::<usize, PdfError>(n as usize))')]),
+  'Primitive::as_number': acc('as_number', [('spec', 'r == number_of(*self)')],
+      extra=[{'rule': 'R7', 'find': 'Ok(n as f32)', 'replace': 'Ok(hoist_i32_as_f32(n))'}]),
+  'Primitive::as_bool': acc('as_bool', [('spec', 'r == bool_of(*self)')]),
+  'Primitive::into_reference': acc('into_reference', [('spec', 'r == plainref_reads(self)')]),
+  'Primitive::into_array': acc('into_array', [('spec', 'r == (match self { Primitive::Array(v) => Ok::<Vec<Primitive>, PdfError>(v), _ => unexpected("Array", self) })')]),
+  'Primitive::into_name': acc('into_name', [('spec', 'r == (match self { Primitive::Name(s) => Ok::<Name, PdfError>(Name(s)), _ => unexpected("Name", self) })')]),
   # ---- i32
   'i32_from_primitive': reader(r'^impl Object for i32$', 'i32_from_primitive', 'i32',
       [('rd_spec', 'r == i32_reads(p, r_.store())')], extra=[sig('r: &R__', 'r_: &R__'), {'rule': 'R2', 'regex': r'\br\.resolve\(', 'replace': 'r_.resolve('}]),
